@@ -8,6 +8,7 @@ NOT covered by a theorem (see DESIGN.md, C04): that SciPy's ball query with the 
 predicate and the float behaviour is validated by the `kd_ball` correspondence operation.
 -/
 import Prs.Proofs.Engines
+import Prs.Model.Radius
 namespace Prs
 variable {α : Type} [DecidableEq α]
 
@@ -53,9 +54,36 @@ theorem C04_engines_agree (A : List α) (c k : Nat) (hc : 1 ≤ c) (xs : List (L
   · rw [h3, symdelDefault_iff]
   · rw [hashDefault_iff A xs k hA, symdelDefault_iff]
 
+/-! ### the floating-point radius
+
+`C04_kdtree_exact` is about the integer predicate `sqdist ≤ 2k²`.  The code asks SciPy for the ball of
+radius `np.sqrt(2) * max_edits`, a double, and SciPy compares squared distances with `r·r` in double
+arithmetic.  Lean's kernel evaluates the same binary64 operations, so for every max_edits up to 128
+the following is a theorem about the very numbers involved (not a test of SciPy): the boundary value
+2k² — reached by k substitutions of one letter by one other letter — lies inside the computed ball.
+Smaller squared distances are smaller doubles (monotonicity of `Float.ofNat`, trusted IEEE-754).
+The expression is re-read from pyrepseq/nn.py on every run (`Generated.radiusExpr`); a mathematically
+equal rewriting such as `np.sqrt(2 * max_edits ** 2)` changes the rounding and loses the boundary at
+k = 3 (second example below). -/
+
+/-- the radius expression in the source is the one modelled by `radius` -/
+theorem C04_radius_source : Generated.radiusExpr = "np.sqrt(2) * max_edits" := by decide
+
+/-- for every max_edits from 1 to 128 the computed double radius keeps the boundary pairs:
+`float(2k²) ≤ fl(r·r)` with `r = fl(fl(√2)·k)` -/
+theorem C04_radius_covers : ∀ k, 1 ≤ k → k ≤ 128 → radiusCovers k = true := by
+  have h : (List.range' 1 128).all radiusCovers = true := by decide +kernel
+  intro k h1 h2
+  exact (List.all_eq_true.1 h) k (List.mem_range'_1.2 ⟨h1, by omega⟩)
+
 /-! non-vacuity: an indel pair straddling two compression bins -/
 example : (0, 1, 1) ∈ hashDefault ['A', 'C', 'D'] [['A', 'D'], ['D']] 1 :=
   (C04_hash_exact ['A', 'C', 'D'] _ 1 (by decide) 0 1 1).2
     ⟨['A', 'D'], ['D'], by decide, rfl, rfl, by simp [lev], by simp [lev]⟩
+
+/-- k = 3: the radius is 4.242640687119286 and r·r = 18.000000000000004 ≥ 18 -/
+example : radiusCovers 3 = true := C04_radius_covers 3 (by decide) (by decide)
+/-- whereas the double nearest to √18 squares to 17.999999999999996 < 18: that radius would lose the pair -/
+example : inBall (Float.ofBits 0x4010F876CCDF6CD9) 18 = false := by decide +kernel
 
 end Prs
